@@ -39,14 +39,39 @@ def cmd_check(prop, tier):
 
 
 def cmd_replay(path):
+    """prints the recorded failure and re-runs its input against /repo's current tree: the in-process job through the runner,
+    the command line through the cteepbd binary"""
     j = json.load(open(path))
-    job = j.get("runner_job")
-    if not job:
-        print(json.dumps(j, indent=1)[:4000])
-        return 0
-    core.build_runner()
-    res = core.run_jobs([job])[0]
-    print(json.dumps(res, indent=1)[:20000])
+    print("recorded:", json.dumps({k: v for k, v in j.items() if k in ("property", "what", "detail", "no_longer_checks")}, indent=1, ensure_ascii=False)[:3000])
+    job = j.get("runner_job") or j.get("job")
+    if isinstance(job, dict):
+        core.build_runner()
+        res = core.run_jobs([dict(job, id="replay")])[0]
+        print("runner answer now:", json.dumps(res, ensure_ascii=False)[:6000])
+    if isinstance(j.get("args"), list) and isinstance(j.get("components"), str):
+        from lib import cliflow
+        core.build_cli()
+        d = cliflow.workdir("replay")
+        try:
+            open(os.path.join(d, "c.csv"), "w", encoding="utf-8", errors="surrogatepass").write(j["components"])
+            if isinstance(j.get("factors"), str):
+                open(os.path.join(d, "f.csv"), "w", encoding="utf-8", errors="surrogatepass").write(j["factors"])
+            args, skip = [], False
+            for a in j["args"]:
+                a = a.replace("<dir>", d)
+                args.append(a)
+            # the first -c / -f arguments point at the recorded files
+            for i, a in enumerate(args):
+                if a == "-c" and i + 1 < len(args):
+                    args[i + 1] = os.path.join(d, "c.csv")
+                if a == "-f" and i + 1 < len(args):
+                    args[i + 1] = os.path.join(d, "f.csv")
+            r = cliflow.run_cli(args, d, timeout=30)
+            print("binary now: exit=%s hang=%s stderr=%s" % (r["exit"], r["hang"], r["stderr"][-800:]))
+        finally:
+            cliflow.cleanup(d)
+    if not isinstance(job, dict) and "args" not in j:
+        print(json.dumps(j, indent=1, ensure_ascii=False)[:6000])
     return 0
 
 
